@@ -3,6 +3,7 @@ sys.path.insert(0,'/verif')
 from lib import report as R, facts as FA, selfval, extract as X
 CLAIMED=[c["property_id"] for c in json.load(open('/verif/MANIFEST.json'))["checks"]]
 KNOWN_ALARM={
+ ('y7','3'): "C05 S8 / C07 N18 / C18 X11: the match that files an unqualified import under values / types rewritten as a match on the pair `(matches!(val, AdtId | TypeAliasId), is_type_import)`: the rule reads which definition kinds can reach an insert off the discriminant switch that dominates it; a kind test bound to a bool and matched later in a tuple is not followed (the boolean half - is_type_import - is, since flow.gate_for reads a switch on a field of a freshly built tuple as a decision on that local)",
  ('z1','2'): "C10 Q1: GleamLexer::next's two `TextSize::try_from(..).unwrap()` moved into offset_to_size, which span_to_range calls twice and next() calls through it: two reviewed sites became one site two helper levels down; the inventory follows several orphaned sites into one helper only when the helper is called from the reviewed function itself (a limit of the code-motion matching, stated rather than hidden; L2, L4m and A3 follow the helpers since this campaign)",
  ('z1','3'): "C01 L7 / C04 G11 / C07 N1: the local macro n_tokens! of build_tree (`take_while(pred).count()`) rewritten as a run-length function with an explicit `for` loop over `tokens.iter().skip(from)` and a predicate passed as a function pointer: the structural proof of the tree builder reads a run length as take_while + count (in the macro expansion or in a run-length function), not as a hand-written counting loop (the same limit as Y3-3)",
  ('Y3','1'): "C02 P6 / C10 Q1: lex_string walks char_indices() and adds `offset + c.len_utf8()`, the slicing site sits under a `match` arm guard instead of an `if`: the overflow-checked addition and the slice are different constructs under differently spelled guards than the reviewed ones (verifier-style inventory; same class as W6-1 and X7-3)",
@@ -13,10 +14,10 @@ KNOWN_ALARM={
  ('W6','1'): "C02 P6 / C10 Q1: lex_string walks char_indices() and adds `offset + c.len_utf8()` where it summed `total_len += c.len_utf8()`: the overflow-checked addition is a different construct under different guards than the reviewed one (verifier-style inventory; the addition is bounded by the text length)",
 }
 for t in sys.argv[1:]:
-    notes=json.load(open('/tmp/bseed/%s/notes.json'%t))
+    notes=json.load(open('%s/%s/notes.json'%(os.environ.get('BSEED','/tmp/bseed'),t)))
     for ch in notes['changes']:
         n=ch['patch'].replace('benign','').replace('.diff','')
-        patch='/tmp/bseed/%s/%s'%(t,ch['patch'])
+        patch='%s/%s/%s'%(os.environ.get('BSEED','/tmp/bseed'),t,ch['patch'])
         d=selfval.scratch_copy(X.REPO)
         try:
             r=subprocess.run(["git","apply","--whitespace=nowarn",patch],cwd=d,capture_output=True,text=True)
@@ -41,7 +42,7 @@ for t in sys.argv[1:]:
         shutil.rmtree(dst,ignore_errors=True); os.makedirs(dst)
         shutil.copy(patch,dst+'/patch.diff')
         meta={"benign":True,"summary":"%s: %s"%(ch.get('kind',''),ch.get('what','')),"why_behaviour_preserving":ch.get('why_behaviour_preserving',''),
-              "origin":"sub-agent asked for realistic behaviour-preserving refactorings of a given file set (ninth campaign, aimed at what the rules of rounds 11 and 12 read); no knowledge of the properties or of /verif; it confirmed build + unchanged suite",
+              "origin":"sub-agent asked for realistic behaviour-preserving refactorings of a given file set (ninth campaign and its follow-up, aimed at what the rules of rounds 11 and 12 read); no knowledge of the properties or of /verif; it confirmed build + unchanged suite",
               "confirmed":{"how":"all rule modules on a scratch copy of /repo + patch","outcome":"all claimed checks silent" if not alarms else "all claimed checks silent except the documented one"},
               "silent_for":[p for p in CLAIMED if p not in alarms]}
         if ka: meta["known_alarm"]=ka
